@@ -38,4 +38,4 @@ def run(ctx, proofs_ok):
         vlib.correspond_stateless(ctx, h, ops[i:i + 10000], f"hostile{i//10000}", "reader model vs real reader: impossible sizes, truncated frames, inline garbage, noise")
     if ctx.violations:
         return
-    conc.run_scenarios(ctx, [("hostile", 2 if q else 12, 0)], "hostile clients against a live server with a canary connection", mem_limit=True)
+    conc.run_scenarios(ctx, [("hostile", 2 if q else 12, 0)], "hostile clients against a live server with a canary connection", mem_limit=True, prog_replay=False)
